@@ -100,3 +100,10 @@ Print Assumptions C09_wide_every_schedule.
 Print Assumptions C09_key_det_clock.
 Print Assumptions ClosedWide.C09w_any_schedule.
 Print Assumptions ClosedWide.C09w_root_minimax.
+
+(* the model constants equal the ones translated from the source on this run *)
+From ChessV Require ConstsTie.
+Check ConstsTie.rights_masks_tie.
+Check ConstsTie.promotions_tie.
+Check ConstsTie.search_key_arity_tie.
+Check ConstsTie.clock_key_threshold_tie.
